@@ -425,8 +425,69 @@ class Inliner(object):
         changed = False
         self._caller_locals = _locals_of(fnode) | {"self", "cls"}
 
+        def has_helper_call(e):
+            for c in ast.walk(e):
+                if isinstance(c, ast.Call):
+                    h_, _r = self.resolve(c, cls_name, first)
+                    if h_ is not None and h_ is not fnode and self.inlinable(h_) and \
+                            self.expression_body(h_) is None:
+                        return True
+            return False
+
+        def desugar(s):
+            """Statements equivalent to s in which a helper call that sits inside a list
+            comprehension or in the right operand of an `and` test stands in a position the
+            inliner can expand; [s] when there is nothing to do."""
+            # x = [elt for t in it if c]  ->  x = []; for t' in it: if c: x.append(elt)
+            if isinstance(s, ast.Assign) and len(s.targets) == 1 and isinstance(
+                    s.targets[0], ast.Name) and isinstance(s.value, ast.ListComp) and \
+                    len(s.value.generators) == 1 and not s.value.generators[0].is_async and \
+                    has_helper_call(s.value) and not any(
+                        isinstance(x, (ast.ListComp, ast.SetComp, ast.DictComp, ast.GeneratorExp,
+                                       ast.Lambda))
+                        for x in ast.walk(s.value) if x is not s.value):
+                gen = s.value.generators[0]
+                tgt = s.targets[0].id
+                if any(isinstance(x, ast.Name) and x.id == tgt for x in ast.walk(s.value)):
+                    return [s]
+                self.counter += 1
+                tag = "__i%d" % self.counter
+                bound = {x.id for x in ast.walk(gen.target) if isinstance(x, ast.Name)}
+                mapping = {b: b + tag for b in bound}
+                ren = _Rename(mapping)
+                target = ren.visit(copy.deepcopy(gen.target))
+                elt = ren.visit(copy.deepcopy(s.value.elt))
+                ifs = [ren.visit(copy.deepcopy(c)) for c in gen.ifs]
+                app = ast.Expr(value=ast.Call(
+                    func=ast.Attribute(value=ast.Name(id=tgt, ctx=ast.Load()), attr="append",
+                                       ctx=ast.Load()), args=[elt], keywords=[]))
+                body = [app]
+                # one nested `if` per condition (and per conjunct of an `and`): a helper call
+                # that is a whole condition is then in a position the inliner expands
+                conds = []
+                for c_ in ifs:
+                    conds.extend(c_.values if isinstance(c_, ast.BoolOp) and isinstance(
+                        c_.op, ast.And) else [c_])
+                for c_ in reversed(conds):
+                    body = [ast.If(test=c_, body=body, orelse=[])]
+                loop = ast.For(target=target, iter=gen.iter, body=body, orelse=[])
+                init = ast.Assign(targets=[ast.Name(id=tgt, ctx=ast.Store())],
+                                  value=ast.List(elts=[], ctx=ast.Load()))
+                out_ = [ast.copy_location(init, s), ast.copy_location(loop, s)]
+                for o in out_:
+                    ast.fix_missing_locations(o)
+                return out_
+            return [s]
+
         def rewrite_list(stmts):
             nonlocal changed
+            pre_ = []
+            for s0 in stmts:
+                d = desugar(s0)
+                if len(d) != 1 or d[0] is not s0:
+                    changed = True
+                pre_.extend(d)
+            stmts = pre_
             out = []
             for s in stmts:
                 for fld in ("body", "orelse", "finalbody"):
